@@ -82,6 +82,48 @@ theorem PresC.chooseLoop (w : Nat) (pick : Member → Bool) (l out : List Member
 
 end
 
+/-! knowing the current state and effects exactly (for units whose steps break the invariant in between) -/
+
+structure PresCAt {α} (P : State → List Effect → Prop) (s0 : State) (eff0 : List Effect) (m : M α) : Prop where
+  run : ∀ c, c.s = s0 → c.eff = eff0 → match m c with
+    | .ok _ c' => P c'.s c'.eff
+    | .err _ c' => P c'.s c'.eff
+    | .stuck _ => True
+
+section
+variable {P : State → List Effect → Prop}
+
+theorem PresC.getS_at {β} {f : State → M β} (h : ∀ s0 eff0, P s0 eff0 → PresCAt P s0 eff0 (f s0)) :
+    PresC P (Foca.getS >>= f) :=
+  ⟨fun c hc => by simp only [bind_run, getS_run]; exact (h c.s c.eff hc).run c rfl rfl⟩
+
+theorem PresCAt.getS_bind {β} {s0 : State} {eff0 : List Effect} {f : State → M β}
+    (h : PresCAt P s0 eff0 (f s0)) : PresCAt P s0 eff0 (Foca.getS >>= f) :=
+  ⟨fun c h1 h2 => by simp only [bind_run, getS_run]; rw [h1]; exact h.run c h1 h2⟩
+
+theorem PresCAt.of_presC {α} {s0 : State} {eff0 : List Effect} {m : M α} (h0 : P s0 eff0) (h : PresC P m) :
+    PresCAt P s0 eff0 m :=
+  ⟨fun c h1 h2 => h.run c (by rw [h1, h2]; exact h0)⟩
+
+theorem PresCAt.modS_bind {β} {s0 : State} {eff0 : List Effect} {g : State → State} {k : M β}
+    (h : PresCAt P (g s0) eff0 k) : PresCAt P s0 eff0 (Foca.modS g >>= fun _ => k) :=
+  ⟨fun c h1 h2 => by simp only [bind_run, modS_run]; exact h.run _ (by simp only; rw [h1]) h2⟩
+
+theorem PresCAt.emit_bind {β} {s0 : State} {eff0 : List Effect} {e : Effect} {k : M β}
+    (h : PresCAt P s0 (eff0 ++ [e]) k) : PresCAt P s0 eff0 (Foca.emit e >>= fun _ => k) :=
+  ⟨fun c h1 h2 => by simp only [bind_run, emit_run]; exact h.run _ h1 (by simp only; rw [h2])⟩
+
+theorem PresCAt.ite {α} {s0 : State} {eff0 : List Effect} {c : Prop} [Decidable c] {a b : M α}
+    (ha : c → PresCAt P s0 eff0 a) (hb : ¬ c → PresCAt P s0 eff0 b) : PresCAt P s0 eff0 (if c then a else b) := by
+  split
+  · exact ha ‹_›
+  · exact hb ‹_›
+
+theorem PresCAt.panicAt {α} {s0 : State} {eff0 : List Effect} (p : PanicSite) :
+    PresCAt P s0 eff0 (Foca.panicAt p : M α) := ⟨fun _ _ _ => trivial⟩
+
+end
+
 macro "presc_step" : tactic => `(tactic| first
   | exact PresC.pure _
   | exact PresC.getS
@@ -105,18 +147,36 @@ def memberNote : Effect → Bool
   | .notify (.rename _ _) => true
   | _ => false
 
-/-- leaf obligations of an effect-aware invariant about membership and its notifications -/
-structure LeavesC (E : Env) (P : State → List Effect → Prop) : Prop where
-  keepMs : ∀ f, (∀ s, (f s).ms = s.ms) → PresC P (modS f)
-  emitOther : ∀ e, memberNote e = false → PresC P (emit e)
+/-- the timers of the probe loop -/
+def probeTimer : Effect → Bool
+  | .timer _ (.probe _) => true
+  | _ => false
+
+/-- `f` keeps the member list, the connection state, the timer token and the (ghost) epoch — everything the
+    effect-aware invariants look at; it may write anything else -/
+def Keep4 (f : State → State) : Prop :=
+  ∀ s, (f s).ms = s.ms ∧ (f s).conn = s.conn ∧ (f s).token = s.token ∧ (f s).epoch = s.epoch
+
+/-- leaf obligations of an effect-aware invariant. `special` marks the effects the invariant accounts for (they
+    are emitted only inside the unit leaves); the four connection-state transitions and the two units in which
+    membership and its notifications change together are leaves. -/
+structure LeavesC (E : Env) (P : State → List Effect → Prop) (special : Effect → Bool) : Prop where
+  /-- only membership notifications and probe timers may be special -/
+  plain : ∀ e, memberNote e = false → probeTimer e = false → special e = false
+  keep : ∀ f, Keep4 f → PresC P (modS f)
+  emitOther : ∀ e, special e = false → PresC P (emit e)
   removeDown : ∀ id, PresC P (modS fun s => { s with ms := removeIfDown s.ms id })
   membersNext : PresC P membersNext
   sendMessage : ∀ d m, PresC P (sendMessage E d m)
   applyUpdate : ∀ u b, PresC P (applyUpdate E u b)
   applyExistingReport : ∀ u cond, PresC P (applyExistingReport E u cond)
+  reset : PresC P Foca.reset
+  becomeUndead : PresC P Foca.becomeUndead
+  /-- going idle / becoming active, with the check of the connection state that guards them -/
+  adjustConnectionState : PresC P (Foca.adjustConnectionState E)
 
 section
-variable {E : Env} {P : State → List Effect → Prop} (L : LeavesC E P)
+variable {E : Env} {P : State → List Effect → Prop} {special : Effect → Bool} (L : LeavesC E P special)
 include L
 
 theorem LeavesC.sendAll (msg : Msg) (ds : List Id) : PresC P (Foca.sendAll E msg ds) := by
@@ -143,44 +203,13 @@ theorem LeavesC.announceToDown (n : Nat) : PresC P (Foca.announceToDown E n) := 
 
 theorem LeavesC.addUpdate (m : Member) : PresC P (Foca.addUpdate E m) := by
   unfold Foca.addUpdate
-  exact L.keepMs _ (fun _ => rfl)
-
-theorem LeavesC.reset : PresC P Foca.reset := by
-  unfold Foca.reset
-  exact L.keepMs _ (fun _ => rfl)
-
-theorem LeavesC.becomeUndead : PresC P Foca.becomeUndead := by
-  unfold Foca.becomeUndead
-  presc
-  all_goals first
-    | exact L.keepMs _ (fun _ => rfl)
-    | exact L.emitOther _ rfl
-
-theorem LeavesC.becomeDisconnected : PresC P (Foca.becomeDisconnected E) := by
-  unfold Foca.becomeDisconnected
-  presc
-  all_goals first
-    | exact L.keepMs _ (fun _ => rfl)
-    | exact L.emitOther _ rfl
-
-theorem LeavesC.becomeConnected : PresC P (Foca.becomeConnected E) := by
-  unfold Foca.becomeConnected
-  presc
-  all_goals first
-    | exact L.keepMs _ (fun _ => rfl)
-    | exact L.emitOther _ rfl
-
-theorem LeavesC.adjustConnectionState : PresC P (Foca.adjustConnectionState E) := by
-  unfold Foca.adjustConnectionState
-  presc
-  · exact L.becomeConnected
-  · exact L.becomeDisconnected
+  exact L.keep _ (fun _ => ⟨rfl, rfl, rfl, rfl⟩)
 
 theorem LeavesC.changeIdentity (i : Id) (p : Policy) : PresC P (Foca.changeIdentity E i p) := by
   unfold Foca.changeIdentity
   presc
   all_goals first
-    | exact L.keepMs _ (fun _ => rfl)
+    | exact L.keep _ (fun _ => ⟨rfl, rfl, rfl, rfl⟩)
     | exact L.reset
     | exact L.addUpdate _
     | exact L.gossip
@@ -190,7 +219,7 @@ theorem LeavesC.attemptRejoin : PresC P (Foca.attemptRejoin E) := by
   presc
   all_goals first
     | exact L.changeIdentity _ _
-    | exact L.emitOther _ rfl
+    | exact L.emitOther _ (L.plain _ rfl rfl)
 
 theorem LeavesC.handleSelfUpdate (inc : Nat) (st : St) : PresC P (Foca.handleSelfUpdate E inc st) := by
   unfold Foca.handleSelfUpdate
@@ -199,7 +228,7 @@ theorem LeavesC.handleSelfUpdate (inc : Nat) (st : St) : PresC P (Foca.handleSel
     | exact L.attemptRejoin
     | exact L.becomeUndead
     | exact L.gossip
-    | exact L.keepMs _ (fun _ => rfl)
+    | exact L.keep _ (fun _ => ⟨rfl, rfl, rfl, rfl⟩)
 
 theorem LeavesC.applyOne (u : Member) (b : Bool) : PresC P (Foca.applyOne E u b) := by
   unfold Foca.applyOne
@@ -245,7 +274,7 @@ theorem LeavesC.leaveCluster : PresC P (Foca.leaveCluster E) := by
 theorem LeavesC.addBroadcast (d : Bytes) : PresC P (Foca.addBroadcast E d) := by
   unfold Foca.addBroadcast
   presc
-  all_goals exact L.keepMs _ (fun _ => rfl)
+  all_goals exact L.keep _ (fun _ => ⟨rfl, rfl, rfl, rfl⟩)
 
 theorem LeavesC.reuseDownIdentity : PresC P Foca.reuseDownIdentity := by
   unfold Foca.reuseDownIdentity
@@ -255,33 +284,35 @@ theorem LeavesC.reuseDownIdentity : PresC P Foca.reuseDownIdentity := by
 theorem LeavesC.setConfig (cfg : Config) : PresC P (Foca.setConfig cfg) := by
   unfold Foca.setConfig
   presc
-  exact L.keepMs _ (fun _ => rfl)
+  exact L.keep _ (fun _ => ⟨rfl, rfl, rfl, rfl⟩)
 
 theorem LeavesC.probeSuspectFailed : PresC P (Foca.probeSuspectFailed E) := by
   unfold Foca.probeSuspectFailed
   presc
   all_goals first
-    | exact L.keepMs _ (fun _ => rfl)
+    | exact L.keep _ (fun _ => ⟨rfl, rfl, rfl, rfl⟩)
     | exact L.applyExistingReport _ _
-    | exact L.emitOther _ rfl
+    | exact L.emitOther _ (L.plain _ rfl rfl)
 
 theorem LeavesC.probeStartNext : PresC P (Foca.probeStartNext E) := by
   unfold Foca.probeStartNext
   presc
   all_goals first
     | exact L.membersNext
-    | exact L.keepMs _ (fun _ => rfl)
+    | exact L.keep _ (fun _ => ⟨rfl, rfl, rfl, rfl⟩)
     | exact L.sendMessage _ _
-    | exact L.emitOther _ rfl
+    | exact L.emitOther _ (L.plain _ rfl rfl)
 
-theorem LeavesC.probeRandomMember : PresC P (Foca.probeRandomMember E) := by
+theorem LeavesC.probeRandomMember (hemit : ∀ p tok, PresC P (emit (.timer p (.probe tok)))) :
+    PresC P (Foca.probeRandomMember E) := by
   unfold Foca.probeRandomMember
   presc
   all_goals first
-    | exact L.keepMs _ (fun _ => rfl)
+    | exact L.keep _ (fun _ => ⟨rfl, rfl, rfl, rfl⟩)
     | exact L.probeSuspectFailed
     | exact L.probeStartNext
-    | exact L.emitOther _ rfl
+    | exact hemit _ _
+    | exact L.emitOther _ (L.plain _ rfl rfl)
 
 theorem LeavesC.pingReqLoop (probed : Id) (ds : List Id) : PresC P (Foca.pingReqLoop E probed ds) := by
   induction ds with
@@ -289,24 +320,57 @@ theorem LeavesC.pingReqLoop (probed : Id) (ds : List Id) : PresC P (Foca.pingReq
   | cons d rest ih =>
     unfold Foca.pingReqLoop
     presc
-    · exact L.keepMs _ (fun _ => rfl)
+    · exact L.keep _ (fun _ => ⟨rfl, rfl, rfl, rfl⟩)
     · exact L.sendMessage _ _
     · exact ih
 
-theorem LeavesC.handleTimer (t : Timer) : PresC P (Foca.handleTimer E t) := by
+/-- the probe timer's branch of `handle_timer`, for an invariant that lets the probe timer be re-armed freely -/
+theorem LeavesC.probeBranch (hemit : ∀ p tok, PresC P (emit (.timer p (.probe tok)))) (tok : Nat) :
+    PresC P (Foca.handleTimer E (.probe tok)) := by
   unfold Foca.handleTimer
   presc
-  all_goals first
-    | exact L.keepMs _ (fun _ => rfl)
-    | exact L.removeDown _
-    | exact L.pingReqLoop _ _
-    | exact L.applyExistingReport _ _
-    | exact L.adjustConnectionState
-    | exact L.sendMessage _ _
-    | exact L.probeRandomMember
-    | exact L.chooseAndSend _ _
-    | exact L.announceToDown _
-    | exact L.emitOther _ rfl
+  exact L.probeRandomMember hemit
+
+/-- `handle_timer`; the probe timer's branch is a hypothesis -/
+theorem LeavesC.handleTimer (t : Timer) (hprobe : ∀ tok, t = .probe tok → PresC P (Foca.handleTimer E (.probe tok))) :
+    PresC P (Foca.handleTimer E t) := by
+  cases t with
+  | probe tok => exact hprobe tok rfl
+  | indirect p tok =>
+    unfold Foca.handleTimer
+    presc
+    all_goals first
+      | exact L.keep _ (fun _ => ⟨rfl, rfl, rfl, rfl⟩)
+      | exact L.pingReqLoop _ _
+  | s2d m inc tok =>
+    unfold Foca.handleTimer
+    presc
+    all_goals first
+      | exact L.applyExistingReport _ _
+      | exact L.adjustConnectionState
+      | exact L.sendMessage _ _
+  | pa tok =>
+    unfold Foca.handleTimer
+    presc
+    all_goals first
+      | exact L.emitOther _ (L.plain _ rfl rfl)
+      | exact L.chooseAndSend _ _
+  | pad tok =>
+    unfold Foca.handleTimer
+    presc
+    all_goals first
+      | exact L.emitOther _ (L.plain _ rfl rfl)
+      | exact L.announceToDown _
+  | pg tok =>
+    unfold Foca.handleTimer
+    presc
+    all_goals first
+      | exact L.emitOther _ (L.plain _ rfl rfl)
+      | exact L.chooseAndSend _ _
+  | rm m =>
+    unfold Foca.handleTimer
+    presc
+    exact L.removeDown _
 
 theorem LeavesC.customLoop (sender : Option Id) (fuel : Nat) (data : Bytes) : PresC P (Foca.customLoop E sender fuel data) := by
   induction fuel generalizing data with
@@ -315,7 +379,7 @@ theorem LeavesC.customLoop (sender : Option Id) (fuel : Nat) (data : Bytes) : Pr
     unfold Foca.customLoop
     presc
     all_goals first
-      | exact L.keepMs _ (fun _ => rfl)
+      | exact L.keep _ (fun _ => ⟨rfl, rfl, rfl, rfl⟩)
       | exact ih _
 
 theorem LeavesC.handleCustomBroadcasts (data : Bytes) (sender : Option Id) :
@@ -328,7 +392,7 @@ theorem LeavesC.reactToMessage (h : Header) : PresC P (Foca.reactToMessage E h) 
   unfold Foca.reactToMessage
   presc
   all_goals first
-    | exact L.keepMs _ (fun _ => rfl)
+    | exact L.keep _ (fun _ => ⟨rfl, rfl, rfl, rfl⟩)
     | exact L.sendMessage _ _
     | exact L.handleSelfUpdate _ _
 
@@ -354,12 +418,14 @@ theorem LeavesC.handleData (data : Bytes) : PresC P (Foca.handleData E data) := 
     | exact PresC.attempt (L.handleCustomBroadcasts _ _)
     | exact L.replyStage _ _
 
-theorem LeavesC.runOp (op : Op) : PresC P (Foca.runOp E op) := by
+theorem LeavesC.runOp (op : Op)
+    (hprobe : ∀ tok, op = .timer (.probe tok) → PresC P (Foca.handleTimer E (.probe tok))) :
+    PresC P (Foca.runOp E op) := by
   cases op <;> unfold Foca.runOp <;> presc
   all_goals first
+    | exact L.handleTimer _ (fun tok h => hprobe tok (by rw [h]))
     | exact L.applyMany _ _
     | exact L.handleData _
-    | exact L.handleTimer _
     | exact L.sendMessage _ _
     | exact L.gossip
     | exact L.broadcastApi
